@@ -21,13 +21,13 @@ META = {
                   "and judged by the same TLA+ Parse.",
     "level_note": "Token abstraction: uniformity within a token class is assumed; the abstraction contract (which fields the "
                   "references accept) is checked by the harness for every concrete line. Bounded line length for the "
-                  "exhaustive part; the 12-token alphabet is exhaustive to 5/6 tokens, longer lines (8/9 tokens, record-shaped ones 13/16) are enumerated "
+                  "exhaustive part; the 12-token alphabet is exhaustive to 5/6 tokens, longer lines (8/9 tokens, record-shaped ones 11/13) are enumerated "
                   "over the 5 token classes with members rotated, never two whole-field tokens glued.",
 }
 
 FULL = '{"A4", "A6", "A6z", "Abad", "N", "Nidn", "Nbad", "SP", "TAB", "HASH", "CMT", "CR"}'
 CLASSES = '{"cA", "cN", "cJ", "cS", "cH"}'
-RECORDS = '{"cA", "cN", "cS"}'
+RECORDS = '{"cA", "cN", "cS", "Nbad"}'
 LEMMAS = ["InvRoundTrip", "InvImplRefines", "InvCommentIgnored", "InvSeparatorsIrrelevant", "InvPriority"]
 
 
@@ -35,14 +35,18 @@ def run(ctx):
     q = ctx.tier == "quick"
     d = ctx.spec_copy("hosts")
     ctx.rule = ("MC: lemmas of HostsLine.tla for every token line up to the bound; G: every token line (12 tokens to 5/6, "
-                "5 classes with rotated members to 8/9, record-shaped class lines to 13/16, no two whole-field tokens glued) with the outcome Parse predicts, "
-                "replayed on UnmarshalText/MarshalText under 3 concretisations x {fresh, dirty} record; T: seeded random byte "
+                "5 classes with rotated members to 8/9, record-shaped class lines (addresses, names, bad names, separators) to 11/13, no two whole-field tokens glued) with the outcome Parse predicts, "
+                "replayed on UnmarshalText/MarshalText under 4 concretisations (plain, 2 x uniform, ACE/Punycode names) x {fresh, dirty} record; T: seeded random byte "
                 "lines abstracted by the reference functions and judged by HostsLineTrace.tla. "
                 "distinct_nontrivial = distinct non-empty token lines replayed")
     ctx.assumptions += [
         "netip.ParseAddr and netutil.ValidateDomainName are the trusted references (the statement names them)",
         "uniformity: two texts of the same token class (same verdicts of the two references) are treated alike",
         "errors are classified by errors.Is / errors.As only; an address error must carry netip.ParseAddr's own error in its chain",
+        "storage of the receiver across calls is outside the statement: UnmarshalText may reuse the backing array of "
+        "rec.Names when parsing again into the same *Record (as encoding/json does for slices), so a value copy of an "
+        "earlier result that the caller kept may be overwritten by the next parse; only the record after each single call "
+        "(fresh or pre-populated receiver) and the independence from the input buffer are checked",
     ]
 
     # 1. MC: design lemmas on all strings (glued fields included).
@@ -56,8 +60,9 @@ def run(ctx):
     write_cfg(d / "HostsLineGenClass_run.cfg", "GSpec", {"Alphabet": CLASSES, "MaxLen": 8 if q else 9},
               invariants=["Emit", "GenLemmas"])
     ctx.tlc(d, "HostsLineGen", "HostsLineGenClass_run.cfg", label="line-gen-class", timeout=1800)
-    # record-shaped lines: addresses, names and separators only (most are accepted, up to 4-5 names)
-    write_cfg(d / "HostsLineGenRec_run.cfg", "GSpec", {"Alphabet": RECORDS, "MaxLen": 13 if q else 16},
+    # record-shaped lines: addresses, names, separators and bad names only (many are accepted, up to 5-6 names; a bad
+    # name appears in every name position: first, middle, last)
+    write_cfg(d / "HostsLineGenRec_run.cfg", "GSpec", {"Alphabet": RECORDS, "MaxLen": 11 if q else 13},
               invariants=["Emit", "GenLemmas"])
     ctx.tlc(d, "HostsLineGen", "HostsLineGenRec_run.cfg", label="line-gen-records", timeout=1800)
     nvec = count_lines(d / "c07_vectors.ndjson")
@@ -73,6 +78,12 @@ def run(ctx):
     ctx.extra["lines_enumerated"] = nvec
     ctx.extra["distinct_concrete_lines"] = s["distinct_concrete_lines"]
     ctx.extra["accepted_roundtrips"] = s["accepted_roundtrips"]
+    # Punycode: all-ASCII names that only idna.ToASCII rejects must have been the first bad name in the first, a
+    # middle and the last name position (and valid ACE names accepted), otherwise the generator families lost them.
+    ace = {k: s.get(k, 0) for k in ("ace_bad_first", "ace_bad_middle", "ace_bad_last", "ace_valid_accepted")}
+    if min(ace.values()) == 0:
+        raise CheckerError("ACE (xn--) names missing from a name position: %s" % ace)
+    ctx.extra["ace_names"] = ace
 
     # 3. T: random byte lines, abstracted by the references, judged by TLC.
     n = 20000 if q else 150000
